@@ -140,6 +140,7 @@ var refPool = []string{"#/definitions/a", "#/definitions/b", "other.json#/defini
 var schemaURLs = []string{"http://json-schema.org/draft-04/schema#", "http://json-schema.org/draft-04/schema", "http://swagger.io/v2/schema.json#"}
 var schemaTypes = []string{"string", "number", "integer", "boolean", "array", "object", "null"}
 var statusCodes = []string{"200", "201", "204", "400", "404", "500", "100", "599"}
+
 // "/x~1y" and "/x~0y" hold the two-character sequences literally (their pointer tokens are ~1x~01y, ~1x~00y);
 // "/x/y" and "/x~y" are what a second, wrong unescaping would turn them into
 var pathKeys = []string{"/", "/pets", "/pets/{id}", "/a/b", "/a b", "/é", "/x~y", "/a%2Fb", "/{p}/q", "/x~1y", "/x~0y", "/x/y"}
